@@ -35,13 +35,43 @@ def model_inputs(model, eng, typecase):
     return out
 
 
+def effective_funcname(c):
+    """`Class.method` as the contract names it, or `Sub.method` when the object the contract is stated for (its `self`) is an
+    instance of a subclass of the same module that overrides the method: the verified text must be the code that RUNS for that
+    object, not the base-class text the contract author looked at (a later override in the subclass would otherwise go unseen)."""
+    from .engine import Obj, PObj
+    from .sym import Const
+    parts = c.funcname.split('.')
+    if len(parts) != 2 or c.source is not None:
+        return c.funcname
+    st = c.params.get('self') if hasattr(c.params, 'get') else None
+    cls = getattr(st, 'cls', None) if isinstance(st, Obj) else None
+    if cls is None and isinstance(st, Const) and isinstance(getattr(st, 'value', None), PObj):
+        cls = st.value.cls
+    if not isinstance(cls, type):
+        return c.funcname
+    try:
+        module = importlib.import_module(c.module)
+    except Exception:
+        return c.funcname
+    declared = getattr(module, parts[0], None)
+    if not isinstance(declared, type) or cls is declared or not issubclass(cls, declared):
+        return c.funcname
+    for k in cls.__mro__:
+        if parts[1] in k.__dict__:
+            if k is not declared and k.__module__ == c.module and issubclass(k, declared) and getattr(module, k.__name__, None) is k:
+                return k.__name__ + '.' + parts[1]
+            return c.funcname
+    return c.funcname
+
+
 def verify_contract(c, registry, both=False, keep_engine=False):
     """Returns FunctionResult.  Obligations with the same name on several paths are
     grouped: the name is discharged iff every path instance is."""
     res = FunctionResult(c.qualname)
     src = scratch.scratch_src()
     try:
-        node, sha, seg = load_function(c.module, c.funcname, src, harness_source=c.source)
+        node, sha, seg = load_function(c.module, effective_funcname(c), src, harness_source=c.source)
     except Unsupported as e:
         res.unsupported = str(e)
         return res
